@@ -17,7 +17,9 @@ THEOREMS = [
     "Typedpy.C18.collect_all_exact", "Typedpy.C18.fail_fast_member", "Typedpy.C18.statement_partial",
     "Typedpy.C18.statement_false", "Typedpy.C18.construct_example", "Typedpy.C18.phase_one_scalar_sound",
     "Typedpy.C18.phase_one_float_spelling", "Typedpy.C18.phase_one_float_int_examples",
-    "Typedpy.C18.deser_collect_exact_iff", "Typedpy.C18.two_phase_example",
+    "Typedpy.C18.deser_collect_exact_iff", "Typedpy.C18.two_phase_example", "Typedpy.C18.p1Site_isSome",
+    "Typedpy.C18.p1_names_own_field", "Typedpy.C18.stale_shared_inner_name_example",
+    "Typedpy.C18.set_build_site_examples",
 ]
 RULE = ("flat classes (1..5 fields: Integer/Number/Float incl. sign variants, String, Boolean, Enum, and Array/Deque/"
         "Set/Tuple/Map over them) from the type-directed declaration generator; per class a valid argument set, then "
@@ -28,15 +30,21 @@ RULE = ("flat classes (1..5 fields: Integer/Number/Float incl. sign variants, St
         "hand-written cases pinning every known finding, plus nested classes (helpers must not raise), plus a directed "
         "stream: every bounded scalar kind (numbers in int AND float spelling, strings) bare and as element of every "
         "collection kind, violated alone and with 1-2 further invalid fields, through the constructor, "
-        "Deserializer.deserialize and deserialize_structure, fail_fast on/off. Compared: phase one of deserialization "
-        "(Lean `phaseOneInvalid` vs the real deserialize_single_field, field by field); "
+        "Deserializer.deserialize and deserialize_structure, fail_fast on/off; plus a shared-instance / history stream: "
+        "ONE item Field instance shared by 2-3 collection fields (Array/Deque/Set/Tuple/Map key/Map value), with no / one / "
+        "two earlier successful constructions or deserializations in the same process, then a bad element (out of "
+        "bounds, ill-typed, unhashable list/dict, None) in one or two fields; the random stream also gets histories, "
+        "shared instances and unhashable elements with p~0.3. Compared: phase one of deserialization "
+        "(Lean `phaseOneInvalid` vs the real deserialize_single_field, field by field; Lean `p1Sites` — exception class, "
+        "count/order, and the text every message must begin with given the OBSERVED scratch `_name`s of the inner Field "
+        "instances — vs the real message(s); when phase one rejects nothing, the constructor model on the lifted arguments); "
         "model exception class / class prefix / path / shape vs str(exception); model parse vs the real ErrorInfo(s). "
         "Oracle: the property statement on the real results with the invalid set computed by Lean `validate`.")
 ASSUMPTIONS = [
     "Python's json module is an oracle (Codec): the only law assumed in theorems is loads(dumps(xs)) = xs on lists of strings (explicit hypothesis); the driver instantiates it with Lean.Data.Json",
     "Python's str.isalnum (what \\w matches) is an oracle (Word): assumed only to contain ASCII letters/digits and not ':'; the harness supplies its answers for the non-ASCII characters of each message",
     "value and problem TEXTS are universally quantified parameters of the model (not predicted); the driver reads them off the real message; predicted are exception class, class prefix, path, suffix, shape, order and count",
-    "deserialization: WHICH supplied fields its first phase (deserialize_single_field) rejects is modelled (phaseOneInvalid) and corresponded field by field; its message sites are not: for deserialization runs the text correspondence covers only the helper's parse of the real message; the property oracle runs with the invalid set of the lifted arguments and classifies unreported fields by the Lean phase-one model (never by the code under test)",
+    "deserialization: which supplied fields its first phase rejects (phaseOneInvalid) and where / under which leading path each rejection is raised (p1Sites: named / inner / foreign) are modelled and corresponded; the scratch `_name` of every inner Field instance is an INPUT of the model, observed by the harness just before the call; value / problem texts after the head are not predicted. The oracle accepts a known finding only at the site kind where the Lean model places it (never by message text, never by probing the code under test)",
     "PYTHONHASHSEED=0; the class dump lists fields in the real signature order",
 ]
 TRUSTED_EXTRA = [
